@@ -16,6 +16,8 @@ Definition mt_SignedAdd_ci W I := [m_SignedAdd (gi W 0) (gi W 1) (gi W 3) (Some 
 Definition mt_SignedAdd_co W I := pr (m_SignedAdd_co (gi W 0) (gi W 1) (gi W 3) 1 None (gi I 0) (gi I 1)).
 Definition mt_SignedAdd_ci_co W I := pr (m_SignedAdd_co (gi W 0) (gi W 1) (gi W 3) 1 (Some (gi I 2)) (gi I 0) (gi I 1)).
 
+Definition mt_SubBorrowIn W I := [SubBorrowIn_propagate (gi W 3) (gi I 0) (gi I 1) (gi I 2)].
+
 (* W = [wa; wb; wr] *)
 Definition mt_Sub W I := [Sub_propagate (gi W 2) (gi I 0) (gi I 1)].
 Definition mt_SignedSub W I := [m_SignedSub (gi W 0) (gi W 1) (gi W 2) (gi I 0) (gi I 1)].
